@@ -1014,10 +1014,15 @@ static HANGS: AtomicUsize = AtomicUsize::new(0);
 static EPOCHS: AtomicUsize = AtomicUsize::new(1);
 fn step_limit() -> Duration {
     match HANGS.load(Ordering::SeqCst) {
-        0..=2 => Duration::from_secs(60),
-        3..=9 => Duration::from_secs(10),
-        _ => Duration::from_secs(2),
+        0..=1 => Duration::from_secs(60),
+        _ => Duration::from_secs(5),
     }
+}
+/// after this many observed hangs the generator stops emitting further cases (every emitted case
+/// has really been run; the hangs already are failing cases)
+const MAX_HANGS: usize = 12;
+fn too_many_hangs() -> bool {
+    HANGS.load(Ordering::SeqCst) >= MAX_HANGS
 }
 /// lock that survives poisoning (a panicking implementation call never holds these locks, but
 /// the harness must not die with it)
@@ -1630,6 +1635,11 @@ fn parse_env(input: &Value, base: usize) -> Option<Env> {
     }
 }
 fn run(kind: &str, input: &Value) -> Value {
+    // replay / shrink runs: once the hang budget of this process is used up, further cases are
+    // not run at all (reported as "invalid" = no observation), so the process always terminates
+    if too_many_hangs() {
+        return json!(["invalid"]);
+    }
     match kind {
         "hist" => {
             let Some(env) = parse_env(input, 3) else { return json!(["invalid"]) };
@@ -1967,6 +1977,9 @@ fn interleavings(counts: &mut Vec<usize>, cur: &mut Vec<usize>, out: &mut Vec<Ve
 }
 
 fn emit_hist_env(em: &mut Emitter, programs: &[Vec<Call>], schedule: &[usize], env: &Env, tags: &[&str]) {
+    if too_many_hangs() {
+        return;
+    }
     let nt = nontrivial_hist(programs, env, schedule);
     if env.is_plain() {
         em.case("hist", json!([programs.len(), programs_json(programs), schedule]), nt, tags);
@@ -2483,6 +2496,27 @@ fn gen_stress(rng: &mut SplitMix64, n: usize, ncalls: usize, env: Env, rich: boo
     (g.programs, g.env)
 }
 
+/// "burst": 4 threads that do nothing but insert (source + map of it, `reps` times each) from a
+/// common start barrier - maximal contention on the id allocation - and then collect some of
+/// their own handles; an id handed out twice shows as duplicate ids / a foreign value
+fn gen_burst(rng: &mut SplitMix64, n: usize, reps: usize) -> Vec<Vec<Call>> {
+    (0..n)
+        .map(|t| {
+            let mut p = Vec::new();
+            for i in 0..reps {
+                let v = (t * 1000 + i) as i64;
+                p.push(Call::Src(RowsSpec::List(vec![(t as i64, v), (0, v + 1)])));
+                p.push(Call::Derive(Op::Map, 1 + (i % 3) as i64, 0, (t, 2 * i)));
+            }
+            for _ in 0..6 {
+                let k = rng.below(2 * reps as u64) as usize;
+                p.push(Call::Collect(*rng.pick(&[0usize, 2]), (t, k), false));
+            }
+            p
+        })
+        .collect()
+}
+
 fn generate(seed: u64, tier: Tier, em: &mut Emitter) {
     let thorough = tier == Tier::Thorough;
     // 1. exhaustive interleavings of small fixed programs
@@ -2552,11 +2586,22 @@ fn generate(seed: u64, tier: Tier, em: &mut Emitter) {
         let (programs, env) = gen_stress(&mut rng, n, ncalls, env, rich);
         let total_inserts: usize = programs.iter().flatten().map(Call::inserts).sum();
         let nt = programs.iter().filter(|p| !p.is_empty()).count() >= 2 && total_inserts >= 4;
+        if too_many_hangs() {
+            break;
+        }
         if env.is_plain() {
             em.case("stress", json!([n, programs_json(&programs)]), nt, &["stress"]);
         } else {
             em.case("stress", json!([n, programs_json(&programs), env.json()]), nt, &["stress-rich"]);
         }
+    }
+    // 5. insert bursts from a common start (races on the id allocation that have no yield point)
+    for i in 0..(if thorough { 60 } else { 16 }) {
+        let programs = gen_burst(&mut rng, 4, 20 + 5 * (i % 3));
+        if too_many_hangs() {
+            break;
+        }
+        em.case("stress", json!([4, programs_json(&programs)]), true, &["stress-burst"]);
     }
 }
 
